@@ -251,10 +251,31 @@ func c22(c *core.Ctx) {
 		rS.Check(d == t, dec.Key+":names", dec.Decl.Pos(), "decoder recognises "+d, "decoder recognises ["+d+"] but the reserved-name table has ["+t+"]")
 		rS.Check(e == d, pkgSDK+":encoder-vs-decoder", enc.Decl.Pos(), "same slot names on both sides", "encoder ["+e+"] and decoder ["+d+"] disagree on the reserved slots")
 		inspect := pkgSDK + ".inspectCatalogModel"
+		// classifiers: inspectCatalogModel and same-signature wrappers of the package that hand their own
+		// parameter to a classifier (a memoising front, for example)
+		inspectFn := c.Fn(inspect)
+		classifiers := map[*core.Func]bool{inspectFn: true}
+		for round := 0; round < 2; round++ {
+			for _, g := range p.FuncsIn(pkgSDK) {
+				if g.Decl.Body == nil || classifiers[g] || !types.Identical(g.Obj.Type(), inspectFn.Obj.Type()) {
+					continue
+				}
+				gsig := g.Obj.Type().(*types.Signature)
+				core.Calls(g.Decl.Body, false, func(call *ast.CallExpr) {
+					if t := p.ByObj[core.Callee(g.Info(), call)]; t != nil && classifiers[t] && len(call.Args) == 1 && core.ObjOf(g.Info(), call.Args[0]) == gsig.Params().At(0) {
+						classifiers[g] = true
+					}
+				})
+			}
+		}
+		isClassifierCall := func(info *types.Info, call *ast.CallExpr) bool {
+			t := p.ByObj[core.Callee(info, call)]
+			return t != nil && classifiers[t]
+		}
 		for _, f := range []*core.Func{enc, dec} {
 			uses := false
 			core.Calls(f.Decl.Body, false, func(call *ast.CallExpr) {
-				if core.IsWsCallTo(f.Info(), call, inspect) {
+				if isClassifierCall(f.Info(), call) {
 					uses = true
 				}
 			})
@@ -266,7 +287,7 @@ func c22(c *core.Ctx) {
 			fl := core.NewFlow(p, info, enc.Decl.Body)
 			var ic *ast.CallExpr
 			core.Calls(enc.Decl.Body, false, func(call *ast.CallExpr) {
-				if core.IsWsCallTo(info, call, inspect) {
+				if isClassifierCall(info, call) {
 					ic = call
 				}
 			})
@@ -283,6 +304,78 @@ func c22(c *core.Ctx) {
 				})
 			}
 			rS.Check(ok, enc.Key+":shape-error-first", enc.Decl.Pos(), "mixed shapes rejected before encoding", "values are encoded although the model mixes the single-value and the map-body shape (the server would prefer the typed value over the body)")
+		}
+	}
+
+	// C22.memo: what the SDK remembers about a model type is remembered for that type.
+	rMemo := c.Rule("C22.memo", "a per-type cache in the SDK conversion code (map or sync.Map) is keyed by the reflect.Type value itself, never by a string or number derived from it (String(), Name(), PkgPath(), Kind()): two model types can print the same - same-named packages, function-local types - and would then be encoded and decoded with each other's field layout", 1)
+	{
+		reflType := func(t types.Type) bool {
+			n, ok := t.(*types.Named)
+			return ok && n.Obj().Pkg() != nil && n.Obj().Pkg().Path() == "reflect" && n.Obj().Name() == "Type"
+		}
+		n := 0
+		for _, f := range p.FuncsIn(pkgSDK) {
+			if f.Decl.Body == nil {
+				continue
+			}
+			info := f.Info()
+			derived := func(e ast.Expr) (string, bool) {
+				e = core.Unparen(e)
+				if id, ok := e.(*ast.Ident); ok {
+					if def := localDef(info, f.Decl.Body, info.Uses[id]); def != nil {
+						e = core.Unparen(def)
+					}
+				}
+				found := ""
+				ast.Inspect(e, func(y ast.Node) bool {
+					if call, ok := y.(*ast.CallExpr); ok {
+						if sel, ok := core.Unparen(call.Fun).(*ast.SelectorExpr); ok && reflType(info.TypeOf(sel.X)) {
+							switch sel.Sel.Name {
+							case "String", "Name", "PkgPath", "Kind":
+								found = core.ExprStr(call)
+							}
+						}
+					}
+					return true
+				})
+				return found, found != ""
+			}
+			check := func(key ast.Expr, pos token.Pos, what string) {
+				n++
+				c.Touch(f)
+				if how, bad := derived(key); bad {
+					rMemo.Bad(f.Key+":"+what, pos, "a cache is addressed with "+how+" instead of the reflect.Type: distinct model types with the same printed name share one entry and are converted with the wrong field layout")
+				} else {
+					rMemo.Ok(f.Key+":"+what, pos, "not keyed by a value derived from a reflect.Type")
+				}
+			}
+			core.Calls(f.Decl.Body, true, func(call *ast.CallExpr) {
+				fo := core.Callee(info, call)
+				if fo == nil || fo.Pkg() == nil || fo.Pkg().Path() != "sync" || len(call.Args) == 0 {
+					return
+				}
+				switch fo.Name() {
+				case "Load", "Store", "LoadOrStore", "LoadAndDelete", "Delete", "Swap", "CompareAndSwap":
+					if recv := core.RecvExpr(call); recv != nil && isSyncMapType(info.TypeOf(recv)) {
+						check(call.Args[0], call.Pos(), core.ExprStr(recv)+"."+fo.Name())
+					}
+				}
+			})
+			ast.Inspect(f.Decl.Body, func(x ast.Node) bool {
+				if ix, ok := x.(*ast.IndexExpr); ok {
+					if _, isMap := info.TypeOf(ix.X).Underlying().(*types.Map); isMap {
+						if how, bad := derived(ix.Index); bad {
+							n++
+							rMemo.Bad(f.Key+":"+core.ExprStr(ix.X)+"[...]", ix.Pos(), "a map is indexed with "+how+" instead of the reflect.Type: distinct model types with the same printed name share one entry")
+						}
+					}
+				}
+				return true
+			})
+		}
+		if n == 0 {
+			rMemo.Ok(pkgSDK+":no-type-caches", token.NoPos, "the SDK conversion code keeps no cache addressed through sync.Map / derived map keys")
 		}
 	}
 
@@ -469,4 +562,12 @@ func tagLocalFromLookup(info *types.Info, body ast.Node, obj types.Object) (bool
 		return true
 	})
 	return found, how
+}
+
+func isSyncMapType(t types.Type) bool {
+	if pt, ok := t.(*types.Pointer); ok {
+		t = pt.Elem()
+	}
+	n, ok := t.(*types.Named)
+	return ok && n.Obj().Pkg() != nil && n.Obj().Pkg().Path() == "sync" && n.Obj().Name() == "Map"
 }
